@@ -65,7 +65,7 @@ func NewRemoteReplicator(
 		cliFct:     cliFct,
 		stateMgr:   stateMgr,
 		isSuspend:  atomic.NewBool(false),
-		suspend:    make(chan struct{}),
+		suspend:    make(chan struct{}, 1), // buffered: the online notification never blocks the state manager's event loop
 		statistics: metrics.NewStorageRemoteReplicatorStatistics(channel.State.Database, channel.State.ShardID.String()),
 		logger:     logger.GetLogger("Replica", "RemoteReplicator"),
 	}
@@ -145,6 +145,12 @@ func (r *remoteReplicator) IsReady() bool {
 		if r.isSuspend.CompareAndSwap(false, true) {
 			r.statistics.FollowerOffline.Incr()
 			r.state.Store(&state{state: models.ReplicatorFailureState, errMsg: "follower node is offline"})
+			// the follower may have come back after the liveness check above and before the suspend flag was set:
+			// its online notification found nobody to wake up. Check again before parking; if a notifier took the
+			// flag in the meantime its wake-up is on the way and has to be received.
+			if _, ok := r.stateMgr.GetLiveNode(follower); ok && r.isSuspend.CompareAndSwap(true, false) {
+				return r.IsReady()
+			}
 			<-r.suspend // wait follower node online
 		}
 		return r.IsReady() // check replicator is ready now
